@@ -842,71 +842,114 @@ Proof. intros x y t H ->. destruct x; cbn in H; try discriminate. now inversion 
 Lemma obs_err_inv : forall (x y : outcome tape), obs x = obs y -> (exists e, y = Err e) -> exists e, x = Err e.
 Proof. intros x y H [e ->]. destruct x; cbn in H; try discriminate. eauto. Qed.
 
+Lemma cut_arith : forall D k s, k <= length D -> runs (init D) s ->
+  (pos D s <= k <= pos D s + 1 <-> length D - k <= length (s_data s) <= length D - k + 1).
+Proof. intros D k s Hk H. apply runs_data_le in H. cbn in H. unfold pos. lia. Qed.
+
+Section TransferOn.
+  (* P: any interpretation of BinaryTapeParser::parse observationally equal to the reference one on a
+     class G of inputs that is closed under taking prefixes *)
+  Variable P : bytes -> outcome tape.
+  Variable G : bytes -> Prop.
+  Hypothesis P_obs : forall d, G d -> obs (P d) = obs (parse_ref d).
+  Hypothesis G_prefix : forall d k, G d -> G (firstn k d).
+
+  Theorem trunc_on : forall D F k, G D -> k <= length D -> P D = Ok F ->
+    (exists e, P (firstn k D) = Err e) \/
+    (exists s, runs (init D) s /\ top s /\ pos D s <= k <= pos D s + 1 /\
+               P (firstn k D) = Ok (s_tape s) /\ exists rest, F = s_tape s ++ rest).
+  Proof.
+    intros D F k HG Hk HF. pose proof (G_prefix D k HG) as HGk.
+    assert (HR : parse_ref D = Ok F) by (eapply obs_ok_inv; [symmetry; apply P_obs; auto|exact HF]).
+    pose proof (P_obs _ HGk) as Ho. rewrite firstn_chop in *.
+    destruct (trunc_bin_ref_prefix D F (length D - k) HR) as [He|(s & A & B & C & E & X)]; [lia| |].
+    - left. eapply obs_err_inv; [exact Ho|exact He].
+    - right. exists s. split; auto. split; auto. split; [apply cut_arith; auto|].
+      split; auto. eapply obs_ok_inv; [exact Ho|exact E].
+  Qed.
+
+  Theorem trunc_on_ok : forall D F k t, G D -> k <= length D -> P D = Ok F -> P (firstn k D) = Ok t ->
+    exists s, runs (init D) s /\ top s /\ pos D s <= k <= pos D s + 1 /\ t = s_tape s /\ exists rest, F = t ++ rest.
+  Proof.
+    intros D F k t HG Hk HF Ht. destruct (trunc_on D F k HG Hk HF) as [[e He]|(s & A & B & C & E & X)]; [congruence|].
+    exists s. rewrite Ht in E. inversion E; subst. auto.
+  Qed.
+
+  Theorem trunc_on_not_top : forall D k s, G D -> k <= length D -> runs (init D) s -> pos D s <= k <= pos D s + 1 ->
+    ~ top s -> exists e, P (firstn k D) = Err e.
+  Proof.
+    intros D k s HG Hk H Hc Hn. eapply obs_err_inv; [apply P_obs; auto|]. exists E_Eof. rewrite firstn_chop.
+    eapply trunc_not_top; eauto. now apply cut_arith.
+  Qed.
+
+  Theorem trunc_on_in_payload : forall D k s s2, G D -> runs (init D) s -> iter false false s = Continue s2 ->
+    pos D s + 2 <= k < pos D s2 -> exists e, P (firstn k D) = Err e.
+  Proof.
+    intros D k s s2 HG H Hi Hc. eapply obs_err_inv; [apply P_obs; auto|]. exists E_LexEof. rewrite firstn_chop.
+    pose proof (runs_data_le _ _ H) as L. pose proof (iter_consumes _ _ Hi). cbn in L. unfold pos in Hc.
+    eapply trunc_in_payload; eauto; lia.
+  Qed.
+
+  Theorem trunc_on_at_top : forall D k s, G D -> k <= length D -> runs (init D) s -> pos D s <= k <= pos D s + 1 ->
+    top s -> P (firstn k D) = Ok (s_tape s).
+  Proof.
+    intros D k s HG Hk H Hc Ht. eapply obs_ok_inv; [apply P_obs; auto|]. rewrite firstn_chop.
+    eapply trunc_at_top; eauto. now apply cut_arith.
+  Qed.
+
+  (* state-free: an accepted prefix carries a prefix of the whole tape; any k *)
+  Theorem trunc_on_plain : forall D F k t, G D -> P D = Ok F -> P (firstn k D) = Ok t -> exists rest, F = t ++ rest.
+  Proof.
+    intros D F k t HG HF Ht. destruct (le_lt_dec k (length D)) as [Hk|Hk].
+    - destruct (trunc_on_ok D F k t HG Hk HF Ht) as (s & _ & _ & _ & _ & X). exact X.
+    - rewrite firstn_all2 in Ht by lia. exists []. rewrite app_nil_r. congruence.
+  Qed.
+
+  (* the whole input need not be accepted: the tapes of two accepted prefixes extend one another *)
+  Theorem trunc_on_mono : forall D k1 k2 t1 t2, G D -> k1 <= k2 -> P (firstn k1 D) = Ok t1 -> P (firstn k2 D) = Ok t2 ->
+    exists rest, t2 = t1 ++ rest.
+  Proof.
+    intros D k1 k2 t1 t2 HG Hk H1 H2. apply (trunc_on_plain (firstn k2 D) t2 k1 t1 (G_prefix _ _ HG) H2).
+    rewrite firstn_firstn. replace (Nat.min k1 k2) with k1 by lia. exact H1.
+  Qed.
+End TransferOn.
+
 Section Transfer.
-  (* P: any interpretation of BinaryTapeParser::parse observationally equal to the reference one *)
+  (* the unconditional case: G = all inputs *)
   Variable P : bytes -> outcome tape.
   Hypothesis P_obs : forall d, obs (P d) = obs (parse_ref d).
-
-  Lemma cut_arith : forall D k s, k <= length D -> runs (init D) s ->
-    (pos D s <= k <= pos D s + 1 <-> length D - k <= length (s_data s) <= length D - k + 1).
-  Proof. intros D k s Hk H. apply runs_data_le in H. cbn in H. unfold pos. lia. Qed.
+  Let G (_ : bytes) : Prop := True.
+  Let GP : forall d, G d -> obs (P d) = obs (parse_ref d) := fun d _ => P_obs d.
+  Let GG : forall d k, G d -> G (firstn k d) := fun _ _ _ => I.
 
   Theorem trunc_gen : forall D F k, k <= length D -> P D = Ok F ->
     (exists e, P (firstn k D) = Err e) \/
     (exists s, runs (init D) s /\ top s /\ pos D s <= k <= pos D s + 1 /\
                P (firstn k D) = Ok (s_tape s) /\ exists rest, F = s_tape s ++ rest).
-  Proof.
-    intros D F k Hk HF. assert (HR : parse_ref D = Ok F) by (eapply obs_ok_inv; [symmetry; apply P_obs|exact HF]).
-    rewrite firstn_chop.
-    destruct (trunc_bin_ref_prefix D F (length D - k) HR) as [He|(s & A & B & C & E & G)]; [lia| |].
-    - left. eapply obs_err_inv; [apply P_obs|exact He].
-    - right. exists s. split; auto. split; auto. split; [apply cut_arith; auto|].
-      split; auto. eapply obs_ok_inv; [apply P_obs|exact E].
-  Qed.
+  Proof. intros D F k. exact (trunc_on P G GP GG D F k I). Qed.
 
   Theorem trunc_gen_ok : forall D F k t, k <= length D -> P D = Ok F -> P (firstn k D) = Ok t ->
     exists s, runs (init D) s /\ top s /\ pos D s <= k <= pos D s + 1 /\ t = s_tape s /\ exists rest, F = t ++ rest.
-  Proof.
-    intros D F k t Hk HF Ht. destruct (trunc_gen D F k Hk HF) as [[e He]|(s & A & B & C & E & G)]; [congruence|].
-    exists s. rewrite Ht in E. inversion E; subst. auto.
-  Qed.
+  Proof. intros D F k t. exact (trunc_on_ok P G GP GG D F k t I). Qed.
 
   Theorem trunc_gen_not_top : forall D k s, k <= length D -> runs (init D) s -> pos D s <= k <= pos D s + 1 ->
     ~ top s -> exists e, P (firstn k D) = Err e.
-  Proof.
-    intros D k s Hk H Hc Hn. eapply obs_err_inv; [apply P_obs|]. exists E_Eof. rewrite firstn_chop.
-    eapply trunc_not_top; eauto. now apply cut_arith.
-  Qed.
+  Proof. intros D k s. exact (trunc_on_not_top P G GP GG D k s I). Qed.
 
   Theorem trunc_gen_in_payload : forall D k s s2, runs (init D) s -> iter false false s = Continue s2 ->
     pos D s + 2 <= k < pos D s2 -> exists e, P (firstn k D) = Err e.
-  Proof.
-    intros D k s s2 H Hi Hc. eapply obs_err_inv; [apply P_obs|]. exists E_LexEof. rewrite firstn_chop.
-    pose proof (runs_data_le _ _ H) as L. pose proof (iter_consumes _ _ Hi). cbn in L. unfold pos in Hc.
-    eapply trunc_in_payload; eauto; lia.
-  Qed.
+  Proof. intros D k s s2. exact (trunc_on_in_payload P G GP GG D k s s2 I). Qed.
 
   Theorem trunc_gen_at_top : forall D k s, k <= length D -> runs (init D) s -> pos D s <= k <= pos D s + 1 ->
     top s -> P (firstn k D) = Ok (s_tape s).
-  Proof.
-    intros D k s Hk H Hc Ht. eapply obs_ok_inv; [apply P_obs|]. rewrite firstn_chop.
-    eapply trunc_at_top; eauto. now apply cut_arith.
-  Qed.
-  (* state-free: an accepted prefix carries a prefix of the whole tape; any k *)
-  Theorem trunc_gen_plain : forall D F k t, P D = Ok F -> P (firstn k D) = Ok t -> exists rest, F = t ++ rest.
-  Proof.
-    intros D F k t HF Ht. destruct (le_lt_dec k (length D)) as [Hk|Hk].
-    - destruct (trunc_gen_ok D F k t Hk HF Ht) as (s & _ & _ & _ & _ & G). exact G.
-    - rewrite firstn_all2 in Ht by lia. exists []. rewrite app_nil_r. congruence.
-  Qed.
+  Proof. intros D k s. exact (trunc_on_at_top P G GP GG D k s I). Qed.
 
-  (* the whole input need not be accepted: the tapes of two accepted prefixes extend one another *)
+  Theorem trunc_gen_plain : forall D F k t, P D = Ok F -> P (firstn k D) = Ok t -> exists rest, F = t ++ rest.
+  Proof. intros D F k t. exact (trunc_on_plain P G GP GG D F k t I). Qed.
+
   Theorem trunc_gen_mono : forall D k1 k2 t1 t2, k1 <= k2 -> P (firstn k1 D) = Ok t1 -> P (firstn k2 D) = Ok t2 ->
     exists rest, t2 = t1 ++ rest.
-  Proof.
-    intros D k1 k2 t1 t2 Hk H1 H2. apply (trunc_gen_plain (firstn k2 D) t2 k1 t1 H2).
-    rewrite firstn_firstn. replace (Nat.min k1 k2) with k1 by lia. exact H1.
-  Qed.
+  Proof. intros D k1 k2 t1 t2. exact (trunc_on_mono P G GP GG D k1 k2 t1 t2 I). Qed.
 End Transfer.
 
 Lemma obs_ref_ref : forall d, obs (parse_ref d) = obs (parse_ref d).
@@ -917,3 +960,13 @@ Proof. intro d. rewrite fast_eq_ref_fixed. now rewrite ref_fx_irrelevant. Qed.
 
 Lemma obs_code_ref : fast_path_excludes_i64 = true -> forall d, obs (parse_opt d) = obs (parse_ref d).
 Proof. intros E d. unfold parse_opt. rewrite E. apply obs_fixed_ref. Qed.
+
+(* the code as it is (fx = false) on the class of inputs of C03_fast_eq_ref_no_i64 *)
+Lemma obs_asis_ref : forall d, i64_never_in_key_position d -> obs (parse false true d) = obs (parse_ref d).
+Proof. exact fast_eq_ref_no_i64. Qed.
+
+(* the parser the correspondence check runs, whatever the generated flag says *)
+Lemma obs_code_on : forall d, i64_never_in_key_position d -> obs (parse_opt d) = obs (parse_ref d).
+Proof.
+  intros d H. unfold parse_opt. destruct fast_path_excludes_i64; [apply obs_fixed_ref|now apply fast_eq_ref_no_i64].
+Qed.
